@@ -424,19 +424,58 @@ type valCase struct {
 	cond *Cond
 }
 
-// firstOpenPhi: the first phi in the expression tree of v that is neither bound, loop-carried,
-// nor already decided in n.PhiChoice (decided phis are followed through their chosen edge only).
-func firstOpenPhi(v ssa.Value, n *Normer, depth int) *ssa.Phi {
+// expandableCall: v is the (single or extracted) result of an unexported multi-block loop-free
+// helper whose returns are worth enumerating.
+func expandableCall(v ssa.Value, n *Normer) (*ssa.Call, int, bool) {
+	idx := 0
+	call, ok := v.(*ssa.Call)
+	if ex, isEx := v.(*ssa.Extract); isEx {
+		call, ok = ex.Tuple.(*ssa.Call)
+		idx = ex.Index
+	}
+	if !ok {
+		return nil, 0, false
+	}
+	if _, bound := n.Bind[call]; bound {
+		return nil, 0, false
+	}
+	cal := call.Common().StaticCallee()
+	if cal == nil || !isRepoFunc(cal) || cal.Blocks == nil || inlinable(cal) || cal.Object() == nil || cal.Object().Exported() {
+		return nil, 0, false
+	}
+	if _, single := v.(*ssa.Call); single && (cal.Signature.Results().Len() != 1 || !pureLoopFreeAllowCalls(cal)) {
+		return nil, 0, false
+	}
+	if n.NoInline[n.P.FuncName(cal)] || len(n.Ctx) > 3 {
+		return nil, 0, false
+	}
+	for _, c := range n.Ctx {
+		if c.Common().StaticCallee() == cal {
+			return nil, 0, false
+		}
+	}
+	return call, idx, true
+}
+
+// firstOpen: the first choice point in the expression tree of v: a phi that is neither bound,
+// loop-carried, nor already decided in n.PhiChoice (decided phis are followed through their chosen
+// edge only), or the result of a multi-return helper not yet substituted (n.env).
+func firstOpen(v ssa.Value, n *Normer, depth int) ssa.Value {
 	if depth > 9 {
 		return nil
 	}
 	if _, bound := n.Bind[v]; bound {
 		return nil
 	}
+	for i := len(n.env) - 1; i >= 0; i-- {
+		if _, ok := n.env[i][v]; ok {
+			return nil
+		}
+	}
 	switch x := v.(type) {
 	case *ssa.Phi:
 		if i, ok := n.PhiChoice[x]; ok {
-			return firstOpenPhi(x.Edges[i], n, depth+1)
+			return firstOpen(x.Edges[i], n, depth+1)
 		}
 		blk := x.Block()
 		for _, p := range blk.Preds {
@@ -446,18 +485,46 @@ func firstOpenPhi(v ssa.Value, n *Normer, depth int) *ssa.Phi {
 		}
 		return x
 	case *ssa.BinOp:
-		if p := firstOpenPhi(x.X, n, depth+1); p != nil {
+		if p := firstOpen(x.X, n, depth+1); p != nil {
 			return p
 		}
-		return firstOpenPhi(x.Y, n, depth+1)
+		return firstOpen(x.Y, n, depth+1)
 	case *ssa.Convert:
-		return firstOpenPhi(x.X, n, depth+1)
+		return firstOpen(x.X, n, depth+1)
 	case *ssa.UnOp:
-		return firstOpenPhi(x.X, n, depth+1)
+		return firstOpen(x.X, n, depth+1)
 	case *ssa.ChangeType:
-		return firstOpenPhi(x.X, n, depth+1)
+		return firstOpen(x.X, n, depth+1)
+	case *ssa.Call, *ssa.Extract:
+		if _, _, ok := expandableCall(v, n); ok {
+			return v
+		}
 	}
 	return nil
+}
+
+func firstOpenPhi(v ssa.Value, n *Normer, depth int) *ssa.Phi {
+	p, _ := firstOpen(v, n, depth).(*ssa.Phi)
+	return p
+}
+
+// callCases: one alternative per return of the helper producing v, in the helper's calling context.
+func (n *Normer) callCases(call *ssa.Call, idx int, depth int) []valCase {
+	cal := call.Common().StaticCallee()
+	var out []valCase
+	saved := n.Ctx
+	n.Ctx = append(append([]ssa.CallInstruction{}, saved...), call)
+	for _, ret := range returnsOf(cal) {
+		if idx >= len(ret.Results) {
+			continue
+		}
+		rc := n.ReachCond(cal, nil, ret.Block())
+		for _, sub := range n.valueCases(cal, nil, ret.Results[idx], depth+1) {
+			out = append(out, valCase{sub.val, cAnd(rc, sub.cond)})
+		}
+	}
+	n.Ctx = saved
+	return mergeCases(out)
 }
 
 func (n *Normer) valueCases(fn *ssa.Function, from *ssa.BasicBlock, v ssa.Value, depth int) []valCase {
@@ -468,49 +535,25 @@ func (n *Normer) valueCases(fn *ssa.Function, from *ssa.BasicBlock, v ssa.Value,
 		return []valCase{{n.Norm(v), cTrue}}
 	}
 	// result of a multi-block helper: one alternative per return
-	if ex, ok := v.(*ssa.Extract); ok {
-		if call, ok := ex.Tuple.(*ssa.Call); ok {
-			if _, bound := n.Bind[call]; !bound {
-				if cal := call.Common().StaticCallee(); cal != nil && isRepoFunc(cal) && cal.Blocks != nil && !inlinable(cal) && cal.Object() != nil && !cal.Object().Exported() {
-					var out []valCase
-					saved := n.Ctx
-					n.Ctx = append(append([]ssa.CallInstruction{}, saved...), call)
-					for _, ret := range returnsOf(cal) {
-						if ex.Index >= len(ret.Results) {
-							continue
-						}
-						rc := n.ReachCond(cal, nil, ret.Block())
-						for _, sub := range n.valueCases(cal, nil, ret.Results[ex.Index], depth+1) {
-							out = append(out, valCase{sub.val, cAnd(rc, sub.cond)})
-						}
-					}
-					n.Ctx = saved
-					return mergeCases(out)
-				}
-			}
-		}
-	}
-	if call, ok := v.(*ssa.Call); ok {
-		if _, bound := n.Bind[call]; !bound {
-			if cal := call.Common().StaticCallee(); cal != nil && isRepoFunc(cal) && cal.Blocks != nil && !inlinable(cal) && cal.Object() != nil && !cal.Object().Exported() && cal.Signature.Results().Len() == 1 && pureLoopFreeAllowCalls(cal) {
-				var out []valCase
-				saved := n.Ctx
-				n.Ctx = append(append([]ssa.CallInstruction{}, saved...), call)
-				for _, ret := range returnsOf(cal) {
-					rc := n.ReachCond(cal, nil, ret.Block())
-					for _, sub := range n.valueCases(cal, nil, ret.Results[0], depth+1) {
-						out = append(out, valCase{sub.val, cAnd(rc, sub.cond)})
-					}
-				}
-				n.Ctx = saved
-				return mergeCases(out)
-			}
-		}
+	if call, idx, ok := expandableCall(v, n); ok {
+		return n.callCases(call, idx, depth)
 	}
 	var out []valCase
 	var rec func(cond *Cond, decided int)
 	rec = func(cond *Cond, decided int) {
-		phi := firstOpenPhi(v, n, 0)
+		open := firstOpen(v, n, 0)
+		if open != nil && decided < 6 {
+			if call, idx, ok := expandableCall(open, n); ok {
+				// a helper result inside the expression: substitute each of its alternatives
+				for _, sub := range n.callCases(call, idx, depth) {
+					n.env = append(n.env, map[ssa.Value]Poly{open: sub.val})
+					rec(cAnd(cond, sub.cond), decided+1)
+					n.env = n.env[:len(n.env)-1]
+				}
+				return
+			}
+		}
+		phi, _ := open.(*ssa.Phi)
 		if phi == nil || decided >= 6 {
 			if eq, _ := CondEquivalent(cond, cFalse); eq {
 				return
@@ -532,7 +575,10 @@ func (n *Normer) valueCases(fn *ssa.Function, from *ssa.BasicBlock, v ssa.Value,
 				switch leaf.(type) {
 				case *ssa.Call, *ssa.Extract:
 					for _, sub := range n.valueCases(fn, from, leaf, depth+1) {
-						out = append(out, valCase{sub.val, cAnd(cond, sub.cond)})
+						cc := cAnd(cond, sub.cond)
+						if eq, _ := CondEquivalent(cc, cFalse); !eq {
+							out = append(out, valCase{sub.val, cc})
+						}
 					}
 					return
 				}
